@@ -45,6 +45,48 @@ impl ShortMessageFactory for ForeignTB {
     }
 }
 
+/// Third-party factory that keeps only the low 7 bits of the status byte (it relies on the documented contract
+/// of `from_bytes_unchecked`: the status byte it is handed is valid, so its top bit carries no information).
+#[derive(Clone, Copy, Debug, PartialEq, Eq)]
+pub struct Packed(pub u8, pub U7, pub U7);
+impl ShortMessage for Packed {
+    fn status_byte(&self) -> u8 {
+        0x80 | self.0
+    }
+    fn data_byte_1(&self) -> U7 {
+        self.1
+    }
+    fn data_byte_2(&self) -> U7 {
+        self.2
+    }
+}
+impl ShortMessageFactory for Packed {
+    unsafe fn from_bytes_unchecked(b: (u8, U7, U7)) -> Self {
+        Packed(b.0 & 0x7f, b.1, b.2)
+    }
+}
+
+/// Third-party factory whose unchecked constructor insists on the documented contract.
+#[derive(Clone, Copy, Debug, PartialEq, Eq)]
+pub struct Strict(pub u8, pub U7, pub U7);
+impl ShortMessage for Strict {
+    fn status_byte(&self) -> u8 {
+        self.0
+    }
+    fn data_byte_1(&self) -> U7 {
+        self.1
+    }
+    fn data_byte_2(&self) -> U7 {
+        self.2
+    }
+}
+impl ShortMessageFactory for Strict {
+    unsafe fn from_bytes_unchecked(b: (u8, U7, U7)) -> Self {
+        assert!(b.0 >= 0x80, "harness: from_bytes_unchecked called with an invalid status byte");
+        Strict(b.0, b.1, b.2)
+    }
+}
+
 pub fn u7(v: u8) -> U7 {
     // the crate-internal tuple field is not reachable; go through the checked conversion
     core::convert::TryFrom::try_from(v).expect("harness: u7 out of range")
@@ -165,6 +207,13 @@ pub fn observe<M: ShortMessage>(m: &M, o: &mut Obs) {
     bytes_obs(r.to_bytes(), o);
     let s: StructuredShortMessage = m.to_other();
     smsg_obs(&s, o);
+    // from_other (a separate default method of the factory trait) into a byte-preserving and a foreign target
+    let r2 = RawShortMessage::from_other(m);
+    bytes_obs(r2.to_bytes(), o);
+    let f2 = Foreign::from_other(m);
+    bytes_obs((f2.0, f2.1, f2.2), o);
+    let s2 = StructuredShortMessage::from_other(m);
+    smsg_obs(&s2, o);
 }
 
 fn msg_via<F: ShortMessageFactory>(s: u8, d1: u8, d2: u8) -> Obs {
@@ -190,7 +239,7 @@ pub const IMPLS: [&str; 4] = ["raw", "str", "frn", "ftb"];
 
 fn mask_keeps(mask: &str, i: usize) -> bool {
     match mask {
-        "c01" => i < 7 || (23 <= i && i < 34),
+        "c01" => i < 7 || (23 <= i && i < 44),
         "c02" => 7 <= i && i < 27,
         "c04" => (1 <= i && i < 7) || (10 <= i && i < 18) || (24 <= i && i < 27) || (28 <= i && i < 30) || (31 <= i && i < 34),
         _ => true,
@@ -224,6 +273,19 @@ pub fn rawx_obs(s: u8, d1: u8, d2: u8) -> Obs {
             bytes_obs(t, o);
         }
     })
+    .then(guarded(|o| match RawShortMessage::from_bytes((s, u7(d1), u7(d2))) {
+        // the call on the concrete type, as user code writes it
+        Err(_) => o.n(0),
+        Ok(m) => { o.n(1); bytes_obs(m.to_bytes(), o); o.n(m.r#type() as u8 as i64); }
+    }))
+    .then(guarded(|o| match Packed::from_bytes((s, u7(d1), u7(d2))) {
+        Err(_) => o.n(0),
+        Ok(m) => { o.n(1); bytes_obs(m.to_bytes(), o); }
+    }))
+    .then(guarded(|o| match Strict::from_bytes((s, u7(d1), u7(d2))) {
+        Err(_) => o.n(0),
+        Ok(m) => { o.n(1); bytes_obs(m.to_bytes(), o); }
+    }))
 }
 pub fn rawxblk_digest(s: u8) -> u64 {
     let mut h = FNV_INIT;
